@@ -211,6 +211,7 @@ enum Teardown
   TD_STOP,
   TD_DROP, // last shared_ptr dropped on an app thread while callers hold only a raw pointer and are parked
   TD_STOP_TWICE,
+  TD_STOP_DROP, // stop() first, then the last shared_ptr is dropped while callers are still inside (engine already stopped at destruction)
 };
 
 void runOp(World &w, Op op, const char *who)
@@ -326,7 +327,7 @@ void runGeneric(const Scn &sc)
   if (sc.b != OP_NONE)
     th.emplace_back([&]() { runOp(w, sc.b, "B"); });
   mc_label("main:teardown");
-  if (sc.td == TD_DROP)
+  if (sc.td == TD_DROP || sc.td == TD_STOP_DROP)
   {
     // destroying while callers are inside is only legitimate once they are parked (counted by the handshake)
     if (parkedOps)
@@ -343,6 +344,11 @@ void runGeneric(const Scn &sc)
       for (auto &x : th)
         x.join();
       th.clear();
+    }
+    if (sc.td == TD_STOP_DROP)
+    {
+      w.raw->stop();
+      mc_obs("stop returned");
     }
     unwatch(w, implPtr, engPtr);
     w.t.reset();
@@ -535,6 +541,9 @@ const Scn SCN[] = {
   {"tcp_drop_vs_connectSync", false, OP_CONNECT_SYNC, OP_NONE, TD_DROP, 2, 3},
   {"tcp_stop_vs_flush", false, OP_FLUSH, OP_NONE, TD_STOP, 2, 3},
   {"tcp_drop_vs_flush", false, OP_FLUSH, OP_NONE, TD_DROP, 2, 3},
+  {"tcp_stop_then_drop_vs_flush", false, OP_FLUSH, OP_NONE, TD_STOP_DROP, 2, 3},
+  {"tcp_stop_then_drop_vs_receiveSync", false, OP_RECEIVE_SYNC, OP_NONE, TD_STOP_DROP, 1, 2},
+  {"tcp_stop_then_drop_vs_connectSync", false, OP_CONNECT_SYNC, OP_NONE, TD_STOP_DROP, 1, 2},
   {"tcp_stop_vs_send_close_connect", false, OP_SEND_CLOSE, OP_CONNECT, TD_STOP, 1, 2},
   {"tcp_stop_vs_addListener", false, OP_ADD_LISTENER, OP_NONE, TD_STOP, 2, 3},
   {"tcp_stop_vs_stats_receive", false, OP_STATS, OP_RECEIVE_SYNC, TD_STOP, 1, 2},
